@@ -644,6 +644,275 @@ def check_grad_sequences(rep, rng, syms, d, fam, kind=""):
         except Exception as exc:
             rep.fail(sig + ":not_numeric", case, repr(exc)[:200])
 
+# --------------------------------------------------------------------------- formal sums, higher-order gradients
+
+def fam_ops(fam):
+    """(evaluate, differentiate) of a family: tensor / pure (amplitudes) / default (CQ maps)."""
+    mixed = fam == "default"
+
+    def ev(x):
+        return x.eval() if fam == "tensor" else x.eval(mixed=mixed)
+
+    def gr(x, var):
+        return x.grad(var, mixed=False) if fam == "pure" else x.grad(var)
+    return ev, gr
+
+
+def is_formal_sum(x):
+    return hasattr(x, "terms")
+
+
+def sum_symbols(x):
+    if is_formal_sum(x):
+        return set().union(*[all_symbols(t) for t in x.terms]) if x.terms else set()
+    return all_symbols(x)
+
+
+def sum_refusal(x, var):
+    terms = x.terms if is_formal_sum(x) else [x]
+    return any(documented_refusal(t, var) for t in terms)
+
+
+def make_term(fam, syms, nq=2, depth=(2, 4), polyonly=False):
+    """`make(structure_rng, data_rng)` for `pl.same_type_terms`."""
+    def make(sr, dr):
+        if fam == "tensor":
+            g = pl.TensorGen(sr, syms, polyonly=polyonly, data_rng=dr)
+            return g.diagram(sr.randint(1, 3))[0]
+        gen = pl.CircuitGen(sr, syms, mixed=False, max_qubits=nq, rot2=(fam == "pure"), scalars=False,
+                            ket=0.9, data_rng=dr)
+        return gen.circuit(sr.randint(*depth))[0]
+    return make
+
+
+def check_sum_grad(rep, rng, syms, fam, pool, pattern, how, variables=None):
+    """The gradient of a formal SUM (terms possibly repeated: the same object twice, equal but
+    distinct objects) evaluates to the derivative of the evaluation of the sum -- every occurrence
+    of a term counts.  Reference evaluation: the entrywise sum of the terms' own evaluations."""
+    ev, gr = fam_ops(fam)
+    terms = [pool[i] for i in pattern]
+    repeats = len(pattern) - len({0 if i == 2 else i for i in pattern})
+    desc = dict(family="sum_" + fam, pattern=pattern, built=how,
+                terms={str(i): repr(pool[i])[:260] for i in sorted(set(pattern))})
+    rep.count("family:sum_" + fam)
+    rep.count("sum_pattern:%s" % "".join(map(str, pattern)))
+    rep.count("sum_built:" + how)
+    try:
+        s = pl.build_sum(terms, how)
+        if not is_formal_sum(s) or len(s.terms) != len(terms):
+            rep.fail("sum_construction_wrong", desc, "%d terms given, result %r" % (len(terms), s))
+            return
+    except Exception as exc:
+        rep.fail("sum_construction_raises:" + type(exc).__name__, desc, repr(exc)[:200])
+        return
+    try:
+        per_term = {i: pl.entries(ev(pool[i])) for i in sorted(set(pattern))}
+    except Exception as exc:
+        rep.fail("eval_raises:" + type(exc).__name__, desc, repr(exc)[:200])
+        return
+    n = len(per_term[pattern[0]])
+    es = [sum((sympy.sympify(per_term[i][k]) for i in pattern), sympy.Integer(0)) for k in range(n)]
+    present = sorted(set().union(*[all_symbols(t) for t in terms]), key=str)
+    for var in (variables or syms):
+        case = dict(desc, var=str(var))
+        depends = var in present
+        rep.case("sum|%s|%s|%s|%s|%s" % (fam, pattern, how, desc["terms"], var), depends and repeats >= 1)
+        try:
+            g = gr(s, var)
+        except NotImplementedError:
+            if fam == "default" and sum_refusal(s, var):
+                rep.count("refusal:notimpl_two_qubit_rotation")
+            else:
+                rep.fail("unexpected_notimpl", case, "NotImplementedError without a 2-qubit rotation in " + var.name)
+            continue
+        except Exception as exc:
+            rep.fail("sum_grad_raises:" + type(exc).__name__, case, repr(exc)[:200])
+            continue
+        try:
+            ge = ev(g)
+        except Exception as exc:
+            rep.fail("sum_grad_eval_raises:" + type(exc).__name__, case, repr(exc)[:200])
+            continue
+        got = pl.entries(ge) if not isinstance(ge, int) else [0] * n
+        sig = "sum_grad_wrong:" + fam
+        if fam == "tensor" and depends and grad_len(g) == 0:
+            sig = "tensor_sum_grad_is_empty_sum"                                              # F4s
+        try:
+            if compare(rep, sig, dict(case, gradient_terms=grad_len(g)), got, diff_entries(es, var),
+                       pl.rational_point(rng, syms)):
+                rep.count("sum_grad_ok:" + fam)
+                if not depends and (grad_len(g) != 0 or (g.dom, g.cod) != (s.dom, s.cod)):
+                    rep.fail("independent_symbol_not_empty_sum:sum", case, repr(g)[:200])
+        except Exception as exc:
+            rep.fail(sig + ":not_numeric", case, repr(exc)[:200])
+
+
+def check_higher_order(rep, rng, syms, fam, d, seq, kind=""):
+    """d.grad(v1).grad(v2)...: the gradient of the formal sum that grad returned; after k steps it
+    must evaluate to the k-th (mixed) partial derivative of d's evaluation (sympy.diff k times)."""
+    from discopy.tensor import Bubble
+    ev, gr = fam_ops(fam)
+    desc = dict(family="higher_" + fam, kind=kind, diagram=repr(d)[:500], derivatives=[str(v) for v in seq])
+    rep.count("family:higher_" + fam)
+    try:
+        want = pl.entries(ev(d))
+    except Exception as exc:
+        rep.fail("eval_raises:" + type(exc).__name__, desc, repr(exc)[:200])
+        return
+    n = len(want)
+    g = d
+    for k, var in enumerate(seq, 1):
+        case = dict(desc, order=k)
+        prev = g
+        rep.count("higher_order:%s:%d" % (fam, k))
+        rep.case("higher|%s|%s|%s|%d" % (fam, desc["diagram"], desc["derivatives"], k),
+                 k >= 2 and var in sum_symbols(prev))
+        try:
+            g = gr(prev, var)
+        except NotImplementedError:
+            if fam == "default" and sum_refusal(prev, var):
+                rep.count("refusal:notimpl_two_qubit_rotation")
+            else:
+                rep.fail("unexpected_notimpl", case, "NotImplementedError without a 2-qubit rotation in " + var.name)
+            return
+        except Exception as exc:
+            rep.fail("higher_order_grad_raises:" + type(exc).__name__, case, repr(exc)[:200])
+            return
+        want = diff_entries(want, var)
+        if isinstance(g, int) and is_formal_sum(prev) and not prev.terms:
+            # "a diagram not depending on the symbol has the empty sum as gradient": the empty sum
+            # itself gets the int 0 (python's sum() of no terms), which has no type, eval or grad
+            rep.fail("grad_of_empty_sum_is_int", case, "%r.grad(%s) = %r" % (prev, var, g))    # F4e
+            return
+        try:
+            ge = ev(g)
+        except Exception as exc:
+            rep.fail("higher_order_grad_eval_raises:" + type(exc).__name__, case, repr(exc)[:200])
+            return
+        got = pl.entries(ge) if not isinstance(ge, int) else [0] * n
+        sig = "higher_order_grad_wrong:%s:order%d" % (fam, min(k, 3))
+        if fam == "tensor" and k >= 2:
+            if is_formal_sum(prev) and grad_len(g) == 0:
+                sig = "tensor_sum_grad_is_empty_sum"                                          # F4s
+            elif isinstance(prev, Bubble):
+                sig = "tensor_grad_of_derivative_bubble_wrong"                                # F4s
+        try:
+            if not compare(rep, sig, dict(case, gradient_terms=grad_len(g)), got, want, pl.rational_point(rng, syms)):
+                return                  # the later orders are consequences
+        except Exception as exc:
+            rep.fail(sig + ":not_numeric", case, repr(exc)[:200])
+            return
+        rep.count("higher_order_ok:%s:%d" % (fam, k))
+        rep.count("higher_terms:%s" % min(grad_len(g) or 0, 64))
+
+
+def sum_witnesses(quick):
+    """Pinned instances of the region (run through `check_sum_grad` / `check_higher_order`)."""
+    from discopy.quantum import Ket, Bra, Rx, Ry, Rz, CX, CRz, H
+    from discopy import tensor
+    from discopy.tensor import Dim
+    x, y, _ = pl.symbols(True, 3)
+    c = Ket(0) >> Rx(x * y) >> Rz(x ** 2 + y) >> Bra(0)
+    d = Ket(0) >> Ry(2 * x - y) >> H >> Bra(1)
+    c2 = Ket(0) >> Rx(x * y) >> Rz(x ** 2 + y) >> Bra(0)
+    e = Ket(0, 0) >> Rx(x) @ Ry(x * y) >> CX >> CRz(2 * x + y) >> Bra(0, 1)
+    q = Ket(0) >> Rx(x * y + 1)
+    q2 = Ket(0) >> Rx(x) >> Rz(x * y + 1)
+    f = tensor.Box("f", Dim(2), Dim(2), [x ** 2, 1, y, x * y])
+    g = tensor.Box("g", Dim(2), Dim(2), [2 * x, 0, y, x ** 2 + 1])
+    out = dict(
+        sums=[("pure", [c, d, c2], [0, 0], "plus"), ("pure", [c, d, c2], [0, 1, 2], "sum_class"),
+              ("default", [q, q >> H, Ket(0) >> Rx(x * y + 1)], [0, 2], "plus"),
+              ("tensor", [f >> g, g >> f, f >> g], [0, 1, 0], "plus")],
+        higher=[("pure", c, [x, x, x]), ("pure", Ket(1) >> Rx(y + 1) >> Rx(y + 1), [y, x, y]),
+                ("tensor", f >> g, [x, y]), ("tensor", f, [x, x])])
+    if not quick:
+        out["sums"] += [("default", [q2, q2 >> H, Ket(0) >> Rx(x) >> Rz(x * y + 1)], [0, 1, 2], "builtin_sum"),
+                        ("pure", [e, e, e], [0, 0, 0], "nested")]
+        out["higher"] += [("pure", e, [x, x, x]), ("default", q2, [x, x, x]), ("default", q2, [x, y]),
+                          ("default", Ket(0) >> Rx(2 * x + y) >> H, [x, y, x])]
+    return out
+
+
+def sums_plan(quick):
+    """(what, family, count)."""
+    if quick:
+        return [("sum", "tensor", 6), ("sum", "pure", 4), ("sum", "default", 1),
+                ("higher", "tensor", 4), ("higher", "pure", 3), ("higher", "default", 0)]
+    return [("sum", "tensor", 40), ("sum", "pure", 30), ("sum", "default", 8),
+            ("higher", "tensor", 24), ("higher", "pure", 24), ("higher", "default", 5)]
+
+
+def run_sums(rep, seed, quick, syms):
+    """Formal sums with repeated terms and higher-order gradients: own generator."""
+    rng = random.Random(seed * 1000003 + 153)
+    w = sum_witnesses(quick)
+    for fam, pool, pattern, how in w["sums"]:
+        rep.count("witness:sum_" + fam)
+        check_sum_grad(rep, random.Random(rng.getrandbits(64)), syms, fam, pool, pattern, how, variables=syms[:2])
+    for fam, d, seq in w["higher"]:
+        rep.count("witness:higher_" + fam)
+        check_higher_order(rep, random.Random(rng.getrandbits(64)), syms, fam, d, seq, kind="witness")
+    patterns = list(pl.SUM_PATTERNS)
+    for what, fam, n in sums_plan(quick):
+        for j in range(n):
+            r = random.Random(rng.getrandbits(64))
+            if what == "sum":
+                # default mode: CQ evaluation of every term of the sum and of its gradient -- 1 qubit,
+                # 1-2 gates; quick: patterns of 2-3 terms
+                if fam == "default":
+                    make = make_term(fam, syms, nq=1, depth=(1, 2))
+                    pats = [p for p in patterns if len(p) <= (3 if quick else 4)]
+                else:
+                    make = make_term(fam, syms, nq=2, depth=(2, 3) if quick else (2, 4))
+                    pats = [p for p in patterns if len(p) <= 3] if (quick and fam == "pure") else patterns
+                pool = None
+                for _ in range(6):              # terms with parameters (a sum of constants is trivial)
+                    pool = pl.same_type_terms(r, make)
+                    if all_symbols(pool[0]):
+                        break
+                # quick: a pattern chosen by the seed (all of them over the seeds); thorough: all in turn
+                pattern = r.choice(pats) if quick else (pats[j % len(pats)] if j < 2 * len(pats) else r.choice(pats))
+                how = r.choice(pl.SUM_BUILDERS)
+                dep = sorted(set().union(*[all_symbols(t) for t in pool]), key=str)
+                r.shuffle(dep)
+                variables = (dep + [v for v in syms if v not in dep])[:1 if (fam == "default" or quick) else 2]
+                check_sum_grad(rep, r, syms, fam, pool, pattern, how, variables=variables)
+            else:
+                if fam == "tensor":
+                    d = None
+                    for _ in range(6):
+                        d = make_term(fam, syms)(r, r)
+                        if all_symbols(d):
+                            break
+                    order = r.choice([2, 2, 3])
+                elif fam == "pure":
+                    # 1-2 qubits, the same parametrised gate possibly repeated: third order needs
+                    # >= 2 gates in the symbol for the second-order sum to contain equal terms
+                    if r.random() < 0.4:
+                        d, _ = pl.repeated_gate_circuit(r, syms, max_qubits=2)
+                    else:
+                        d = pl.CircuitGen(r, syms, mixed=False, max_qubits=2, scalars=False, ket=0.9,
+                                          repeat=0.3).circuit(r.randint(2, 3 if quick else 4))[0]
+                    order = r.choice([2, 3, 3])
+                else:
+                    # default mode on 1 qubit: 2^k (shifts) x gates^k terms, each a CQ evaluation
+                    # (quick: one gate with an affine phase, 4-8 terms)
+                    ngates = 1 if quick else r.choice([1, 2, 2])
+                    gen = pl.CircuitGen(r, syms, mixed=False, max_qubits=1, rot2=False, scalars=False, ket=1.0)
+                    d = gen.circuit(ngates, phase=gen.eg.affine if quick else None)[0]
+                    order = (3 if ngates == 1 else r.choice([2, 2, 3])) if not quick else r.choice([2, 3])
+                dep = sorted(all_symbols(d), key=str)
+                if not dep:
+                    rep.count("higher_skipped:no_symbols")
+                    continue
+                # mostly the same symbol again (equal mixed terms need two gates in ONE symbol)
+                seq = [r.choice(dep)]
+                while len(seq) < order:
+                    seq.append(seq[0] if r.random() < 0.6 else r.choice(dep + [r.choice(syms)]))
+                check_higher_order(rep, r, syms, fam, d, seq)
+
+
 # --------------------------------------------------------------------------- witnesses of the findings
 
 def witnesses():
@@ -721,6 +990,73 @@ def model_stream(rep, drv, rng, n_cases):
             rep.disagree(stream, case, real[:400], model[:400])
     rep.extra["model_stream_s"] = round(time.time() - t0, 2)
     return flag
+
+
+def sum_model_stream(rep, drv, rng, n_cases, flag):
+    """Formal sums (with repeated terms) of small integer-polynomial tensor diagrams and second-order
+    gradients, on discopy and on the Lean model (Model/ParamSum.lean), compared exactly:
+      psumgrad   (d_1 + ... + d_k).grad(x_i): number of terms, evaluation
+      pgrad2     d.grad(x_i).grad(x_j):       number of terms, evaluation
+    The model transcribes tensor.Sum as found (no grad of its own: the empty sum) until finding F4s
+    is recorded as fixed, then the rule of circuit.Sum.grad."""
+    syms = pl.symbols(True, NV)
+    sflag = int(any(f.get("id") == "F4s" and f.get("status") == "fixed" for f in load_findings(PROP)))
+    rep.extra["model_fix_flag(F4s)"] = sflag
+    lines, reals, cases = [], [], []
+
+    def ev_tokens(gr, n):
+        ev = gr.eval()
+        es = pl.entries(ev) if not isinstance(ev, int) else [0] * n
+        nt = len(gr.terms) if hasattr(gr, "terms") else 1
+        return "ok %d %s" % (nt, " ".join([str(len(es))] + [tok_poly(e, syms) for e in es]))
+    for _ in range(n_cases):
+        r = random.Random(rng.getrandbits(64))
+        s0, d0, d1 = r.getrandbits(64), r.getrandbits(64), r.getrandbits(64)
+        depth = r.randint(1, 2)
+
+        def make(ds):
+            g = pl.TensorGen(random.Random(s0), syms, polyonly=True, maxdim=6, data_rng=random.Random(ds))
+            return g.diagram(depth, plain_only=True)
+        pool = [make(d0), make(d1), make(d0)]
+        pattern = r.choice(pl.SUM_PATTERNS)
+        how = r.choice(pl.SUM_BUILDERS)
+        vi, vj = r.randrange(NV), r.randrange(NV)
+        toks = [tok_pdiagram(pool[i][1], syms) for i in pattern]
+        terms = [pool[i][0] for i in pattern]
+        rep.count("model_sum_pattern:%s" % "".join(map(str, pattern)))
+
+        def real_sum(terms=terms, how=how, vi=vi):
+            n = len(pl.entries(terms[0].eval()))
+            return ev_tokens(pl.build_sum(terms, how).grad(syms[vi]), n)
+
+        def real_twice(d=pool[0][0], vi=vi, vj=vj):
+            n = len(pl.entries(d.eval()))
+            g1 = d.grad(syms[vi])
+            if not hasattr(g1, "terms"):
+                # a single box: Box.grad returns the derivative bubble itself, not a sum; its gradient
+                # goes through Bubble.grad and is not what the model's `polyGradTwice` transcribes
+                return None
+            return ev_tokens(g1.grad(syms[vj]), n)
+        reqs = [("psumgrad %d %d %d %d %s" % (sflag, flag, vi, len(toks), " ".join(toks)), real_sum),
+                ("pgrad2 %d %d %d %d %s" % (sflag, flag, vi, vj, toks[0]), real_twice)]
+        for line, fn in reqs:
+            try:
+                real = fn()
+            except Exception as exc:
+                real = "err " + err_class(exc)
+            if real is None:
+                rep.count("model_pgrad2_skipped:single_box")
+                continue
+            lines.append(line)
+            cases.append(dict(terms=[repr(t)[:200] for t in terms], pattern=pattern, built=how, request=line[:400]))
+            reals.append(real)
+    answers = drv.ask_many(lines)
+    for line, case, real, model in zip(lines, cases, reals, answers):
+        stream = "model:" + line.split(" ")[0]
+        rep.count(stream)
+        rep.case(line, True)
+        if real != model:
+            rep.disagree(stream, case, real[:400], model[:400])
 
 
 def tok_layer(l, syms):
@@ -862,7 +1198,13 @@ def run(tier, seed, replay=None):
                 "(3: equal gate names), independent data under the same names, the same diagram built "
                 "twice -- differentiated one after another in a random order in ONE process: each gradient "
                 "against sympy.diff of its own evaluation AND against the value computed for the same "
-                "diagram as first call of a fresh interpreter; grad called twice gives the same sum")
+                "diagram as first call of a fresh interpreter; grad called twice gives the same sum.  "
+                "FORMAL SUMS (families sum_*): 2-4 terms over two different diagrams of one type and an "
+                "equal-but-distinct copy of the first (c+c, c+c', c+d+c, c+c+c, c+d+d+c, ...; built by +, "
+                "Sum([...]), sum(), nested sums) in tensor / pure / default mode against sympy.diff of the "
+                "entrywise sum of the terms' evaluations.  HIGHER ORDER (families higher_*): "
+                "d.grad(v1).grad(v2)[.grad(v3)] (mostly the same symbol) against sympy.diff applied 2-3 times; "
+                "non-trivial = order >= 2 and the previous sum depends on the symbol")
     rep.partial = [
         "sympy.diff is the reference derivative (outside the model)",
         "per-gate rules are proved symbolically in nu = exp(i pi p(x)) over a commutative ring with a "
@@ -877,6 +1219,9 @@ def run(tier, seed, replay=None):
         "decided by the oracle, by comparison with a fresh process, and by the exact stream xgrad run on "
         "bubbles differing only in their function; subs-then-grad / grad-then-subs are proved for tensor "
         "diagrams of plain boxes over any ring homomorphism and derivation, oracle-only for circuits",
+        "formal sums / higher order: grad_sum is proved for terms of any kind given the per-term rule; the "
+        "executable instance and the streams psumgrad / pgrad2 are tensor diagrams of plain boxes; circuit "
+        "sums (where the per-term rule is the gate rules above) are decided by the oracle",
     ]
     rep.assumptions = [
         "symbols are real (the CQ map of a rotation is not holomorphic in a complex phase)",
@@ -896,6 +1241,7 @@ def run(tier, seed, replay=None):
         # own generator: the cases of the other families stay those of earlier runs of the same seed
         bubble_stream(rep, drv, random.Random(seed * 1000003 + 15), 14 if quick else 100, flag,
                       alike_groups=4 if quick else 30)
+        sum_model_stream(rep, drv, random.Random(seed * 1000003 + 154), 20 if quick else 200, flag)
     finally:
         drv.close()
     syms = pl.symbols(True, 3)
@@ -966,6 +1312,9 @@ def run(tier, seed, replay=None):
                                      ket=0.9).circuit(r.randint(2, 4))
                 check_grad_sequences(rep, r, syms, c, fam)
     walls["sequences"] = round(time.time() - t0, 2)
+    t0 = time.time()
+    run_sums(rep, seed, quick, syms)
+    walls["sums_and_higher_order"] = round(time.time() - t0, 2)
     t0 = time.time()
     check_histories(rep, seed, quick, child)
     walls["histories"] = round(time.time() - t0, 2)
